@@ -27,8 +27,9 @@ LEVELS = {
         {'name': 'L2-N4-M1-K2', 'N': 4, 'M': 1, 'K': 2, 'namings': ['id'], 'budget_s': 60},
         {'name': 'L3-N4-M2-K1', 'N': 4, 'M': 2, 'K': 1, 'namings': ['rev'], 'budget_s': 120},
         {'name': 'L4-TN-M1-K2', 'templates': ['TN1', 'TN2'], 'M': 1, 'K': 2, 'namings': ['id', 'rev'], 'budget_s': 40},
+        {'name': 'L6-plant-K5', 'fixed': ['plant', 'plant_s'], 'K': 5, 'events': 'abcdefg', 'namings': ['id'], 'M': 9, 'budget_s': 60},
         {'name': 'L5-TN3-M2-K3', 'templates': ['TN3'], 'M': 2, 'K': 3, 'namings': ['id', 'rev'], 'nevents': 1, 'hist_target': 1,
-         'budget_s': 60},
+         'guards': 0, 'budget_s': 60},
     ],
     'thorough': [
         {'name': 'L1-N3-M3-K3', 'N': 3, 'M': 3, 'K': 3, 'namings': ['id', 'rev'], 'budget_s': 300},
@@ -48,6 +49,8 @@ OUTSIDE = ['charts above the N/M/K bound of the completed level', 'clock moves (
 
 
 def shards(level):
+    if 'fixed' in level:       # hand-written larger charts; the first event of the history is the shard
+        return [{'chart': dict(cg.FIXED[n]), 'first': e} for n in level['fixed'] for e in range(len(level['events']))]
     if 'templates' in level:
         out = []
         for name in level['templates']:
@@ -60,7 +63,7 @@ def shards(level):
 
 def expand(job, level):
     if 'chart' in job:
-        yield job['chart']
+        yield dict(job['chart'], first=job['first']) if 'first' in job else job['chart']
         return
     yield from cg.charts(job['skel'], level['M'], nevents=level.get('nevents', 2), targets='free', fix=job.get('fix'),
                          hist_target=bool(level.get('hist_target')))
@@ -83,7 +86,7 @@ def harness(g, chart, level, canary=False):
     from sismic.exceptions import NonDeterminismError, ConflictingTransitionsError
     namings = level.get('namings', ['id'])
     naming = namings[g.choice('naming', len(namings))]
-    inst = Inst(g, chart, naming)
+    inst = Inst(g, chart, naming, guards=bool(level.get('guards', 0 if level.get('fixed') else 1)))
     cm, it = inst.cm, inst.it
     hist = []
 
@@ -102,7 +105,8 @@ def harness(g, chart, level, canary=False):
     st = inst.init()
     check('after_init', st)
     for k in range(level['K']):
-        ev = 'ab'[g.choice('ev%d' % k, 2)]
+        evs = level.get('events', 'ab')
+        ev = evs[chart['first']] if (k == 0 and 'first' in chart) else evs[g.choice('ev%d' % k, len(evs))]
         was_final = it.final
         st, err, log = inst.step(k, ev)
         hist.append(ev)
